@@ -22,6 +22,7 @@ type TimerObj struct {
 
 type cmdState struct {
 	startErr, started, exited, killed bool
+	outClosed                         bool // the helper closed its stdout (it may go on running)
 	code                              int
 	out                               [][]*Term // output the helper still has to produce
 }
@@ -264,6 +265,11 @@ func (ex *Exec) timerIntrinsic(fn *ssa.Function, name string, args []Value) (Val
 		case "verifHelperOutput": // the helper writes these bytes to its stdout
 			if c, ok := ex.side["cmd"].(*cmdState); ok {
 				c.out = append(c.out, ex.bytesOf(args[0]))
+			}
+			return nil, true
+		case "verifHelperCloseOutput": // the helper closes its stdout but does not exit
+			if c, ok := ex.side["cmd"].(*cmdState); ok && c.started {
+				c.outClosed = true
 			}
 			return nil, true
 		case "verifHelperState": // 0 not started, 1 running, 2 exited, 3 killed
